@@ -95,7 +95,7 @@ pub fn run(ctx: &Ctx) {
          non-trivial = some frame within 5% of its verbatim bound, or max_parameter < 14",
     );
     ctx.assume("count_bits is used to refuse serialising absurdly large frames (its exactness is C08)");
-    let per = ctx.tier.scale(300, 20);
+    let per = ctx.tier.scale(4000, 8);
     let co = CfgOpts { allow_multithread: false, max_block: 8192, ..Default::default() };
     let io = InOpts { heavy: true, wide_bias: true, ..Default::default() };
     ctx.search("heavy", 16, per, &|| stream_case_strategy(co, io, false).prop_map(lowp), check);
